@@ -76,6 +76,7 @@ type Run struct {
 	Notes      []string
 	violSeen   map[string]int
 	OutDir     string
+	markF      *os.File
 }
 
 func NewRun(prop string, seed int64, tier, outDir string) *Run {
@@ -96,7 +97,15 @@ func (r *Run) Mark(what string) {
 	if len(what) > 4000 {
 		what = what[:4000]
 	}
-	os.WriteFile(r.OutDir+"/current.txt", []byte(what), 0o644)
+	if r.markF == nil {
+		f, err := os.Create(r.OutDir + "/current.txt")
+		if err != nil {
+			return
+		}
+		r.markF = f
+	}
+	// one pwrite, no truncation: the reader stops at the first NUL
+	r.markF.WriteAt(append([]byte(what), 0), 0)
 }
 
 var markRun *Run
@@ -205,6 +214,9 @@ func main() {
 	markRun = r
 	os.Remove(outDir + "/current.txt")
 	f(r)
+	if r.markF != nil {
+		r.markF.Close()
+	}
 	os.Remove(outDir + "/current.txt")
 	r.Finish(outDir)
 }
